@@ -20,7 +20,7 @@ META = dict(
                "witness proved). The model is tied to the Go code on every run by exact comparison of the recorded "
                "sequences (objects, order, style tokens; matrices and sizes within 2^(K-36)) and the Go output is judged "
                "directly against the point-map specification.",
-    level_note="Trusted: Coq kernel + vm_compute; the hand-written model (Ctx/Context.v, Ctx/Canvas.v, Ctx/DashCheck.v) is tied "
+    level_note="Trusted: Coq kernel + vm_compute; the hand-written model (Ctx/Context.v, Ctx/Canvas.v; checkDash from C05's Dash/DashPhase.v) is tied "
                "by differential testing on generated histories, not by a proof about Go source. Rotate's (cos, sin), path "
                "lengths/bounds, text bounds and image sizes are relational inputs taken from Go. Matrices are compared within "
                "an explicit rational slack because Go rounds to binary64 and the model is exact. Colour conversion "
@@ -133,7 +133,7 @@ def run(ctx):
         checker_cmd="make -C coq theories/Props/C15.vo (coqc 8.16.1, full .vo) ; coqc on generated cases files (vm_compute)",
         trusted_base=vlib.trusted_base(pr, [
             "correspondence harness harness/cmd/c15 (Go): recording canvas.Renderer, exact dyadic exchange of all float64 values",
-            "models written by hand: Ctx/Context.v, Ctx/Canvas.v, Ctx/DashCheck.v (tied by the differential run below, not proved against Go source)",
+            "models written by hand: Ctx/Context.v, Ctx/Canvas.v, and Dash/DashPhase.v (C05) for checkDash (tied by the differential run below, not proved against Go source)",
             "relational inputs taken from Go: math.Sincos for Rotate (checked c^2+s^2=1 within 2^-40), Path.Length/Bounds, Text.Bounds, image sizes",
             "matrix/size comparisons within the explicit slack 2^(K-36), 2^K > every magnitude in the run (binary64 rounding vs exact Q)"]),
         evaluations=len(cases), distinct=len(distinct), distinct_nontrivial=len(nontrivial),
@@ -150,6 +150,7 @@ def run(ctx):
     )
     return ctx.finish("proof", cov, [
         "all arguments dyadic (exact in binary64 and in Q); views kept regular (|det| >= 2^-10) and bounded (entries <= 2^10) by the generator",
-        "dash offsets below minus one dash period are not generated (dashStart's behaviour there belongs to C05)",
+        "checkDash/dashStart/dashCanonical are C05's model (Dash/DashPhase.v); the property oracle compares the dash offset handed to the renderer only together with a non-empty dash array",
+        "segments that extend the previous one in the same direction are not generated (Path.LineTo/Close merge them by design; the model appends path commands verbatim)",
         "colours are valid premultiplied RGBA (rgbaColor is the identity on them); FitImage and non-finite arguments are not exercised",
         "Go's map iteration order in Fit is irrelevant as long as no transformed bounds is Empty (regular matrices)"])
